@@ -176,3 +176,28 @@ Theorem C14_array_frame_before_fix_refuted :
       Some ([1; 2; 50; 4], [Reply (mk undo_path [As [47]; Ai 3; Ai 50]); Bcast (mk [47] [Ai 50])]) /\
     arr = [1; 2; 3; 4].
 Proof. exact array_frame_old_refuted. Qed.
+
+(* histories.  Any sequence of queries and conforming sets on a scalar numeric
+   or option port (address different from "/undo_change") is answered, and
+   the (previous, new) pairs of the undo events it emits form a chain from the
+   initial to the final stored value: every event starts where the one before
+   ended, every event is a real change, nothing changed without an event. *)
+Theorem C14_undo_chain : forall k e ops v0,
+  scalar_numeric k -> env_ok e k -> val_ok k v0 -> Forall (op_ok e k) ops ->
+  exists v1 outs, run k e ops [v0] = Some ([v1], outs) /\ val_ok k v1 /\
+                  chainK (kind_key k) v0 (undo_pairs outs) v1.
+Proof. exact run_scalar_chain. Qed.
+
+(* over a whole history an array keeps its length and every element that no
+   message of the history addresses keeps its value *)
+Theorem C14_history_frame : forall k e ops arr arr' outs,
+  is_array k = true -> run k e ops arr = Some (arr', outs) ->
+  length arr' = length arr /\
+  forall j, Forall (fun o => Z.to_nat (boils_idx e (op_m o)) <> j) ops ->
+            nth_error arr' j = nth_error arr j.
+Proof. exact run_array_frame. Qed.
+
+Theorem C14_history_nonvacuous :
+  Forall (op_ok env_ex KI) hist_ex /\
+  exists outs, run KI env_ex hist_ex [5] = Some ([-3], outs) /\ undo_pairs outs = [(5, 9); (9, -3)].
+Proof. exact history_nonvacuous. Qed.
